@@ -69,6 +69,7 @@ class ConnState:
         self.authz = None
         self.sasl = None          # in-progress exchange
         self.closed = False
+        self.version = True
         self.auth_ok_count = 0
         self.bytes_after_close = 0
 
@@ -97,6 +98,8 @@ class SimServer:
         self.active = None
         self.log = []              # CmdRecord list
         self.violations = []       # (conn_id, call_id, description, bytes)
+        self.notes = []            # (conn_id, call_id, text): legal but telling (e.g. an optional command that was never offered)
+        self.version_hook = None   # f(conn) -> bool: does this connection get the VERSION capability
         self.net = None
         self._k = {}
         # knobs set by scenarios ------------------------------------------
@@ -236,6 +239,8 @@ class SimServer:
     # -- connection events -------------------------------------------------
     def on_connect(self, conn, addr):
         st = conn.state = ConnState()
+        # which optional commands this connection is offered (a proxy may front servers of different versions)
+        st.version = self.version_hook(conn) if self.version_hook else self.cfg.version
         scope = self._scope()
         kind = self.greeting_hook(conn) if self.greeting_hook else None
         rec = CmdRecord(conn=conn.id, scope=scope, call_id=self.net.call_id, verb=b"<greeting>",
@@ -259,7 +264,7 @@ class SimServer:
         out.append((b"SIEVE", cfg.sieve.encode()))
         if cfg.starttls and not st.tls:
             out.append((b"STARTTLS", None))
-        if cfg.version:
+        if st.version:
             out.append((b"VERSION", b"1.0"))
         for n, v in cfg.extra_caps:
             out.append((n, v))
@@ -461,7 +466,9 @@ class SimServer:
         if verb in wire.SCRIPT_VERBS and st.user is None:
             self.violation(conn, "%s before authentication" % verb.decode(), dec.raw)
             self._reply(conn, rec, scope, b"NO", (), None, b"authenticate first")
-        elif verb in (b"RENAMESCRIPT", b"CHECKSCRIPT", b"NOOP") and not self.cfg.version:
+        elif verb in (b"RENAMESCRIPT", b"CHECKSCRIPT", b"NOOP") and not st.version:
+            if verb != b"NOOP":
+                self.notes.append((conn.id, self.net.call_id, "%s sent on a connection that was not offered VERSION" % verb.decode()))
             rec.note = "unsupported"
             self._reply(conn, rec, scope, b"NO", (), None, b"unknown command")
         else:
